@@ -807,7 +807,14 @@ func c13RunChunk(suite, tier string, lo, hi int, entry string, inputs []c13Input
 	res := &vlib.Result{}
 	self, _ := os.Executable()
 	var skipKeys []string
+	aborts := 0
 	for lo < hi {
+		if aborts >= 4 {
+			// every abort costs a worker restart (suite regeneration); a tree that aborts this often
+			// has already produced its violations - the rest of the chunk is reported as skipped
+			res.Skipped += hi - lo
+			break
+		}
 		cmd := exec.Command("sh", "-c", `ulimit -v 6291456 2>/dev/null; exec "$0" C13 worker`, self)
 		cmd.Env = append(os.Environ(), fmt.Sprintf("VERIF_C13_WORKER=%s:%s:%d:%d:%s", suite, tier, lo, hi, entry), "GOMAXPROCS=2", "VERIF_C13_SKIP="+strings.Join(skipKeys, "\x1f"))
 		var stderr bytes.Buffer
@@ -905,12 +912,15 @@ func c13RunChunk(suite, tier string, lo, hi int, entry string, inputs []c13Input
 			case strings.Contains(se, "stack overflow") || strings.Contains(se, "stack exceeds"):
 				why = "stack-overflow"
 			}
-			// "aborted" covers both the Go runtime giving up under the address-space limit and the
+			// (historical note) an abort used to cover both the Go runtime giving up under the address-space limit and the
 			// kernel killing the worker; which of the two happens depends on the machine's load,
 			// so they share one key (the detail is in the message)
 			detail := ""
-			if strings.Contains(se, "out of memory") || strings.Contains(se, "cannot allocate") {
-				detail = " [out of memory]"
+			if !killed && (strings.Contains(se, "out of memory") || strings.Contains(se, "cannot allocate")) {
+				// an allocation so large that it exhausts the worker's address-space limit is the
+				// same finding as one that merely exceeds the input's budget; whether the runtime
+				// survives it depends on what the heap held at that moment, so both share a key
+				why, detail = "alloc", " [worker ran out of memory]"
 			}
 			first := se
 			if i := strings.Index(se, "\n"); i > 0 {
@@ -919,6 +929,7 @@ func c13RunChunk(suite, tier string, lo, hi int, entry string, inputs []c13Input
 			res.Violate(fmt.Sprintf("C13/%s/%s/%s", why, in.entry, in.class), "input #%d of suite %s (%s): worker process %s%s (%v): %s", cur, suite, in.desc, why, detail, err, first)
 			res.Evals++
 			res.Nontrivial++
+			aborts++
 			lo = cur + 1
 			// the same (entry, input class) would only reproduce the same finding: skip its siblings in this chunk
 			skipKeys = append(skipKeys, in.entry+"|"+in.class)
@@ -963,7 +974,8 @@ func tail(s string) string {
 
 func C13Plan() *vlib.Plan {
 	p := &vlib.Plan{
-		Property: "C13", Level: "exploration",
+		RerunIntersect: true,
+		Property:       "C13", Level: "exploration",
 		Rule:   "Bounded structure-aware exhaustion of every decoder entry point: (stream) 5 receive entry points x {plain, AES-GCM} x all 1-byte strings, all strings of 2-3 (thorough 4) bytes over a 16-value header alphabet, end flag x length boundary product x {no, partial, full body}, runs of 10 / 10^3 / 2*10^5 empty and 1-byte partial frames; (message) 11 typed/ClassAd readers + GetBytes(n) for 17 boundary n, x {one frame, 1-byte frames, missing end} x both modes x payloads = boundary integer (17 values from MinInt64 to MaxInt64) followed by 9 string shapes (empty, unterminated, marker, cap-1/cap/cap+1/10xcap, 100 KB), every truncation of a valid ad, count field over the catalogue, secret marker followed by 10 B..900 KB, ads of 2/5/50 attributes (plain or marker+secret, both string forms) each below the cap but summing above it, every length-prefixed string <= 4 bytes over {Z,K,M,NUL,=} as an ad's only expression (marker with / without its terminator), 20000 tiny expressions; (handshake) real ClientHandshake / ServerHandshake against scripted peers that put every catalogue integer into every length/count/status field they read (server ad, method reply, 5 exchangeKey fields, post-auth ad, SSL message length, FS result, 6 TOKEN step-2 fields; client ad, command, bitmask, CLAIMTOBE, 3 TOKEN step-1 fields, resumption request; through a scripted TLS-over-CEDAR client: the tunnelled TLS message length and the SciToken size read over the established TLS connection) and 4 KB..900 KB oversize ads; (text) all strings <= 5 (thorough 6) over 12-symbol alphabets through 8 parsers, crypto-state blob length fields. Oracle per input: no panic (recovered in the worker), no abort (out-of-memory under ulimit -v 6 GiB, stack overflow under a 16 MiB stack, attributed by the parent to the input in flight), no spin (15 s of CPU, or 5 min of wall-clock time, on one input), TotalAlloc <= 256 x (bytes served + cap) + 4 MiB, capped readers consume <= cap + one frame. Non-trivial = the decoder was invoked on the input (distinct inputs by construction).",
 		Assume: []string{"inputs outside the generated grammar are not covered (the property's fuzzing wording is claimed in this bounded form)", "memory judged by Go's TotalAlloc; SCITOKENS/KERBEROS readers not reached"},
 	}
